@@ -377,7 +377,9 @@ impl Outcome {
             for e in &self.machinery_errors {
                 eprintln!("MACHINERY-ERROR: {}", e);
             }
-            return 2;
+            // a violation that was reported stays a violation: a vacuity guard that fails next to it is
+            // usually a consequence of the same broken behaviour (a feature that can no longer be reached)
+            return if unlisted > 0 { 1 } else { 2 };
         }
         let states = self.coverage.get("states").and_then(|v| v.as_u64()).unwrap_or(0);
         let trans = self.coverage.get("transitions").and_then(|v| v.as_u64()).unwrap_or(0);
